@@ -188,7 +188,7 @@ def _units(F, r4):
     fn = V + "::validate_decoded_credential"
     if not r4.anchor(F.hir(fn), fn):
         return
-    tab = SR.Table(F, fn, opaque=r"JwtCredentialValidatorUtils::check_[a-z_]+$|Credential::check_structure$", rule=r4, max_paths=8000)
+    tab = SR.Table(F, fn, opaque=r"JwtCredentialValidatorUtils::check_[a-z_]+$|Credential::check_structure$", rule=r4, max_paths=8000, concrete_vec=True, loop_bound=8)
     OPT = SR.param("options")
     CREDT = SR.fld("credential", base=SR.param("credential_token"))
     checks = {
